@@ -385,7 +385,7 @@ PROPS = {
         },
         "analyze": analyze_generic,
         "oracles": ["prefix", "remainder", "bounded", "chain", "firstFrom", "quiescent"],
-        "probes": ["splitEq"],
+        "probes": ["splitEq", "consumesNonJSON"],
         "rule": ENGINE_RULE + "  Split runs: the whole batch in one Walk versus every generated split into consecutive batches.",
     },
     "C06": {
